@@ -52,6 +52,7 @@ type Ctx struct {
 	nontriv     map[string]struct{}
 	outcomes    map[string]struct{}
 	evals       int64
+	nontrivN    int64
 	Exhaustive  bool
 	caps        []string
 	Deadline    time.Time // soft budget; zero = none
@@ -106,6 +107,10 @@ func (c *Ctx) Nontrivial(sig string) {
 	c.nontriv[sig] = struct{}{}
 	c.mu.Unlock()
 }
+
+// NontrivialDistinct adds n cases that are non-trivial and pairwise distinct by construction of the enumeration
+// (used where storing one signature per case would need gigabytes).
+func (c *Ctx) NontrivialDistinct(n int64) { atomic.AddInt64(&c.nontrivN, n) }
 
 // Outcome records a distinct observed outcome signature.
 func (c *Ctx) Outcome(sig string) {
@@ -185,7 +190,7 @@ func (c *Ctx) Finish() int {
 	wall := time.Since(c.Start).Seconds()
 	cov := c.cov
 	cov["evaluations"] = c.evals
-	cov["distinct_nontrivial"] = len(c.nontriv)
+	cov["distinct_nontrivial"] = int64(len(c.nontriv)) + c.nontrivN
 	cov["distinct_outcomes"] = len(c.outcomes)
 	if len(c.samples) > 0 {
 		cov["samples"] = c.samples
@@ -220,7 +225,7 @@ func (c *Ctx) Finish() int {
 		fmt.Printf("KNOWN-FINDING: property=%s %s -- %s\n", c.ID, k, c.known[k])
 	}
 	fmt.Printf("%s tier=%s evaluations=%d distinct_nontrivial=%d outcomes=%d exhaustive=%v wall=%.1fs\n",
-		c.ID, c.Tier, c.evals, len(c.nontriv), len(c.outcomes), c.Exhaustive, wall)
+		c.ID, c.Tier, c.evals, int64(len(c.nontriv))+c.nontrivN, len(c.outcomes), c.Exhaustive, wall)
 	if len(c.violations) == 0 {
 		return 0
 	}
